@@ -113,6 +113,7 @@ type Engine struct {
 	lockWait time.Duration
 	xa       map[string]*xaRec
 	sessions map[int]*session
+	pings    int64
 	// openStmts: server-side prepared statements not closed yet (a server allows max_prepared_stmt_count of
 	// them, 16382 by default; a statement a client forgets to close stays until its connection ends)
 	openStmts int64
@@ -652,6 +653,9 @@ func (e *Engine) StrictBusy(on bool) {
 	defer e.mu.Unlock()
 	e.strictBusy = on
 }
+
+// Pings is the number of pings that have reached the engine.
+func (e *Engine) Pings() int64 { return atomic.LoadInt64(&e.pings) }
 
 // OpenStmts is the number of prepared statements that have been prepared and not closed (statements of
 // connections that were closed meanwhile are still counted: the harness looks at differences on live pools).
